@@ -116,6 +116,13 @@ def index_objects(name, n):
         return osyris.Array(rep.copy()), rep
     if name == "ints_i4_Array":
         return osyris.Array(rep.astype(np.int32)), rep
+    neg = np.array([-1, 0, -max(n, 1), min(2, max(n - 1, 0))], dtype=np.int64)
+    if name == "ints_neg_nd":
+        return neg.copy(), neg
+    if name == "ints_neg_Array":
+        return osyris.Array(neg.copy()), neg
+    if name == "perm_from_end_nd":
+        return (-1 - np.arange(n, dtype=np.int64)), (-1 - np.arange(n, dtype=np.int64))
     if name == "perm_nd":
         return perm.copy(), perm
     if name == "perm_list":
@@ -125,7 +132,7 @@ def index_objects(name, n):
 
 INDEX_OPS = [
     "int0", "int-1", "int_oob", "slice1:", "slice::2", "slice::-1", "slice1:3",
-    "mask_nd", "mask_Array", "ints_nd", "ints_Array", "ints_i4_Array", "perm_nd",
+    "mask_nd", "mask_Array", "ints_nd", "ints_Array", "ints_i4_Array", "perm_nd", "ints_neg_nd", "ints_neg_Array", "perm_from_end_nd",
 ]
 
 
@@ -141,6 +148,7 @@ class Spec:
             ops.append(["sortby_member", k])
         ops.append(["sortby_perm", "perm_list"])
         ops.append(["sortby_perm", "perm_nd"])
+        ops.append(["sortby_perm", "perm_from_end_nd"])
         ops.append(["del", "a"])
         ops.append(["del", "b"])
         ops.append(["pop", "c"])
